@@ -1,6 +1,7 @@
 """C12 — link references resolve independently of position, case and spacing."""
 import html as htmlmod
 import json
+import os
 import re
 
 from common import run_model
@@ -57,7 +58,7 @@ def gen_case(r, i=0):
     for l in labs:
         for _ in range(1 if r.random() < 0.7 else r.randint(2, 3)):
             defs.append([variant(r, l), "/u%d" % len(defs), r.choice([None, None, "T%d" % len(defs)]),
-                         r.choice(["top", "top", "quote", "list", "olist", "quote-list", "deep", "deep6", "note", "note-quote", "rst-note", "rst-note-ragged"])])
+                         r.choice(["top", "top", "quote", "list", "olist", "quote-list", "deep", "deep6", "note", "note-quote", "rst-note", "rst-note-ragged", "include"])])
     r.shuffle(defs)
     for j, d in enumerate(defs):
         d[1] = "/u%d" % j
@@ -73,13 +74,20 @@ def gen_case(r, i=0):
     r.shuffle(blocks)
     out = []
     def_order = []
+    files = {}
+    seen_keys = set()
     for kind, j in blocks:
         if kind == "def":
             lab, url, title, place = defs[j]
             line = "[%s]: %s%s" % (lab, url, (' "%s"' % title) if title else "")
             if "\n" in lab:
-                place = "top" if place in ("quote", "quote-list", "deep", "deep6", "note", "note-quote", "rst-note", "rst-note-ragged") else place
+                place = "top" if place in ("quote", "quote-list", "deep", "deep6", "note", "note-quote", "rst-note", "rst-note-ragged", "include") else place
                 defs[j][3] = place  # (the recorded placement is what collection_order reads)
+            if place == "include" and spec_key(lab) not in seen_keys:
+                # a definition written in an included Markdown file is always a REPEATED one here: whether the definitions of an
+                # included file reach the including document or stay in the file, the first definition (above the directive) wins
+                place = defs[j][3] = "top"
+            seen_keys.add(spec_key(lab))
             if place == "top":
                 out.append(line.replace("\n", "\n") + "\n")
             elif place == "quote":
@@ -100,6 +108,9 @@ def gen_case(r, i=0):
             elif place == "rst-note-ragged":
                 # the lines of a directive body need not be indented alike: a first line indented deeper than the definition
                 out.append(".. tip::\n\n     body begins deeper\n\n   " + line + "\n\n    and goes on\n")
+            elif place == "include":
+                files["part%d.md" % j] = r.choice(["", "included text\n\n", "> "]) + line + "\n" + r.choice(["", "\nuse [%s] inside\n" % lab])
+                out.append("```{include} part%d.md\n```\n" % j)
             elif place == "deep6":
                 # exactly max_nested_level containers, any mix of markers, first one a quote
                 out.append("> " + "".join(r.choice(["> ", "- ", "1. "]) for _ in range(5)) + line + "\n")
@@ -135,15 +146,15 @@ def gen_case(r, i=0):
                            % t.replace("\n", " "))
             else:
                 out.append("## h %s\n" % t.replace("\n", " "))
-    return {"defs": [defs[j] for j in def_order], "uses": uses, "doc": "\n".join(out),
+    return {"defs": [defs[j] for j in def_order], "uses": uses, "doc": "\n".join(out), "files": files,
             "blocks": [("def", defs[j]) if kind == "def" else ("use", None) for kind, j in blocks]}
 
 
-def _converter(m, kind, footnotes=False, notes=False):
+def _converter(m, kind, footnotes=False, notes=False, include=False):
     plugins = ["footnotes"] if footnotes else []
-    if notes:
-        from mistune.directives import FencedDirective, RSTDirective, Admonition
-        plugins.append(FencedDirective([Admonition()]))
+    if notes or include:
+        from mistune.directives import FencedDirective, RSTDirective, Admonition, Include
+        plugins.append(FencedDirective([Admonition()] + ([Include()] if include else [])))
         plugins.append(RSTDirective([Admonition()]))
     md = m.create_markdown(plugins=plugins or None)
     if kind == "toc-hook":
@@ -156,8 +167,22 @@ def _converter(m, kind, footnotes=False, notes=False):
 def observe(m, case):
     doc = case["doc"]
     kind = "toc-hook" if sum(map(ord, doc)) % 3 == 0 else "plain"
-    md = _converter(m, kind, "[^" in doc, "```{note}" in doc or ".. note::" in doc or ".. tip::" in doc)
-    out = md(doc)
+    files = case.get("files") or {}
+    md = _converter(m, kind, "[^" in doc, "```{note}" in doc or ".. note::" in doc or ".. tip::" in doc, bool(files))
+    if files:
+        # converted with a file context: the document and the files it includes are written to a scratch directory
+        import shutil
+        import tempfile
+        d = tempfile.mkdtemp(prefix="c12_")
+        try:
+            for name, text in list(files.items()) + [("main.md", doc)]:
+                with open(os.path.join(d, name), "w", encoding="utf-8", newline="") as f:
+                    f.write(text)
+            out = md.read(os.path.join(d, "main.md"))[0]
+        finally:
+            shutil.rmtree(d, ignore_errors=True)
+    else:
+        out = md(doc)
     res = []
     for j, (lab, form, place) in enumerate(case["uses"]):
         mark = "M%dx" % j
@@ -185,7 +210,7 @@ def collection_order(defs_in_blocks):
             i += 2
         else:
             i += 1
-    return [d for k, d in out if k == "def"]
+    return [d for k, d in out if k == "def" and d[3] != "include"]    # (an included file keeps its definitions; they are repeated ones here anyway)
 
 
 def expected(case, quirk=False):
@@ -193,6 +218,8 @@ def expected(case, quirk=False):
     defs = case["defs"] if not quirk else collection_order(case["blocks"])
     for lab, url, title, _place in defs:
         k = spec_key(lab)
+        if _place == "include":
+            continue
         if k and k not in table:
             table[k] = [url, title]
     return [table.get(spec_key(lab)) for lab, _f, _p in case["uses"]]
